@@ -168,15 +168,18 @@ theorem xopt_step (ρ : List FunDef) (L : Lits) (f : Nat)
     split
     · split
       · have key : ∀ u : St, Lit L.length L u →
-            Le (match u.objAt il with
-                | .int j => run ρ f (.cforL il hi b) (u.setObj il (.int (j + 1)))
+            Le (match u.val il with
+                | .int j => if (u.cell il).const then ((.thrown (.evalErr .assignConst), u) : R) else run ρ f (.cforL il hi b) (u.setVal il (.int (j + 1)))
                 | _ => (.thrown (.evalErr .other), u))
-               (match u.objAt il with
-                | .int j => run (ρ.map (xoptFun L)) f (.cforL il hi (xopt L b)) (u.setObj il (.int (j + 1)))
+               (match u.val il with
+                | .int j => if (u.cell il).const then ((.thrown (.evalErr .assignConst), u) : R) else run (ρ.map (xoptFun L)) f (.cforL il hi (xopt L b)) (u.setVal il (.int (j + 1)))
                 | _ => (.thrown (.evalErr .other), u)) := by
           intro u hu
           split
-          · exact (ih (.cforL il hi b) _ (hu.setObj il _ hj) hj).le
+          · split
+            · exact Le.refl _
+            · rename_i hcst
+              exact (ih (.cforL il hi b) _ (hu.setVal il _ (by simpa using hcst)) hj).le
           · exact Le.refl _
         ihx ih (.node b) (.node (xopt L b)) s hl trivial
         cases oo <;> first | exact key _ hlt | exact Le.refl _
@@ -404,8 +407,7 @@ theorem xopt_step (ρ : List FunDef) (L : Lits) (f : Nat)
       · exact Le.refl _
       · rename_i s2 h2
         have e2 : Lit L.length L s2 := (ht.alloc _ _ _).addObject h2
-        have hjob : JobOK L.length (.cforL t.objs.length hi b) := ht.len
-        ihx ih (.cforL t.objs.length hi b) (.cforL t.objs.length hi (xopt L b)) s2 e2 hjob
+        ihx ih (.cforL (t.allocV (.int lo)).1 hi b) (.cforL (t.allocV (.int lo)).1 hi (xopt L b)) s2 e2 trivial
         exact Le.refl _
     | ret e =>
       cases e with
